@@ -181,6 +181,19 @@ theorem filter_tag_accept_sound (accept : Nat) (h : accept < 16) (uncertain matc
     tagAccept accept uncertain matching = tagAcceptSpec accept uncertain matching :=
   tagAccept_sound accept h uncertain matching
 
+/-- inlining the definition of a tag with undecided streams (`InlineTagFilters`, run by every search): a decided
+    stream is judged by its recorded answer, an undecided one by the definition, whatever stale answer is recorded
+    (the regime of the seeded change c02e) -/
+theorem filter_tag_inlined_sound (hasU : Bool) (accept : Nat) (h : accept < 16) (uncertain recorded defTruth : Bool)
+    (hu : hasU = false → uncertain = false) :
+    inlinedAccept hasU accept uncertain recorded defTruth =
+      tagAcceptSpec accept uncertain (if uncertain then defTruth else recorded) :=
+  inlinedAccept_sound hasU accept h uncertain recorded defTruth hu
+
+/-- the hypotheses are satisfiable with a STALE recorded answer: mask "failing or undecided" (14), the stream is
+    undecided, recorded as matching, the definition says failing — accepted -/
+example : inlinedAccept true 14 true true false = true := by decide
+
 /-- an absolute lower / upper time bound parsed at the reference time the search uses means what it
     says, for every index file reference time -/
 theorem filter_time_sound (A ref fileRef first last : Int) :
